@@ -37,7 +37,7 @@ NEIGHBOUR_SETS = [
 class Proto:
     def __init__(self, cls: str, d: Path, names: List[str], rng: random.Random, tk: h5lib.Tokens):
         self.cls = {"ih5": IH5Record, "mf": IH5MFRecord}[cls]
-        self.clsname = cls
+        self.clsname = self.jobcls = cls
         self.d, self.names, self.rng, self.tk = d, names, rng, tk
         self.km = h5lib.KeyMap(rng, False)
         self.rec: Any = None
@@ -84,6 +84,10 @@ class Proto:
         if op == "open":
             if self.rec is not None:
                 raise RuntimeError("harness: a handle is already open")
+            # the class of this handle: the job's class, or (cross-class use: records written through IH5Record read
+            # through IH5MFRecord and the other way round) the one named by the action, until the next open
+            self.clsname = a.get("as", self.jobcls)
+            self.cls = {"ih5": IH5Record, "mf": IH5MFRecord}[self.clsname]
             rn = a["rname"]
             cs = protolib.scan(self.d, [rn])[0]
             kw = self.mfkw(cs, move=a["mode"] in ("r", "r+", "a") and (self.rng.random() < 0.15 or bool(a.get("mfalt"))))
@@ -128,9 +132,18 @@ class Proto:
                 r.attrs["k"] = self.wcount
         elif op == "close":
             if self.rec is not None:
-                self.rec.close(commit=a["commit"])
-                self.rec = None
-                self.rname = ""
+                how = a.get("how", "close")
+                try:
+                    if how == "exit":          # leaving a `with` block normally
+                        self.rec.__exit__(None, None, None)
+                    elif how == "exit_exc":    # leaving a `with` block by an exception (documented: still commits and closes)
+                        ex = ValueError("harness: exception inside the with block")
+                        self.rec.__exit__(ValueError, ex, None)
+                    else:
+                        self.rec.close(commit=a["commit"])
+                finally:
+                    self.rec = None
+                    self.rname = ""
         elif op == "open_older":
             if self.rec is not None:
                 raise RuntimeError("harness: open_older while a handle is open")
@@ -247,8 +260,10 @@ def handle_vs_disk(p: Proto) -> List[str]:
             if str(r.ih5_uuid) != mem["rec"]:
                 mis.append("ih5_uuid differs from the record uuid of a container")
         if p.cls is IH5MFRecord and meta:
-            newest_committed = [c_ for c_ in (protolib.parse_container(Path(f_)) for f_ in files) if c_["parse"] and c_["hash"] and c_["mfu"]]
-            if newest_committed:
+            newest_committed = [c_ for c_ in (protolib.parse_container(Path(f_)) for f_ in files) if c_["parse"] and c_["hash"]]
+            # (the manifest of a record is the one of its newest committed container; a container written through
+            #  IH5Record carries none)
+            if newest_committed and newest_committed[-1]["mfu"]:
                 try:
                     mu = str(r.manifest.manifest_uuid)
                     if mu != newest_committed[-1]["mfu"]:
@@ -320,7 +335,10 @@ def gen_action(rng: random.Random, p: Proto) -> Dict[str, Any]:
     ops = ["write"] * 4 + ["commit"] * 2 + ["create_patch"] * 2 + ["discard", "close", "close", "merge", "open"]
     op = rng.choice(ops)
     if op == "close":
-        return {"op": "close", "commit": rng.random() < 0.7}
+        r = rng.random()
+        if r < 0.2:
+            return {"op": "close", "commit": True, "how": rng.choice(["exit", "exit_exc"])}
+        return {"op": "close", "commit": r < 0.7}
     if op == "merge":
         return {"op": "merge", "target": rng.choice(p.names[1:])}
     if op == "open":  # opening while a handle is held is outside the protocol model: close instead
